@@ -38,26 +38,39 @@ def check_design(run, maxlen, maxdepth):
                        "summary": "Guard.tla itself violates %s (specification error)" % res.violated})
 
 
-def to_program(pid, hist, style="guarded"):
-    """Render a history as a driver program; returns (program, expected history)."""
+def to_program(pid, hist, style="guarded", reuse=False):
+    """Render a history as a driver program; returns (program, expected history).
+    reuse=True: a region entered directly inside a region with the same condition value goes through the SAME guarded(cond) object
+    (a recursive guarded function, two functions sharing one decorator object): guarded objects must be re-entrant."""
     top = []
     stack = [top]         # bodies being filled
     kinds = []            # frame kinds
+    gconds = {}           # depth -> (register, value) of the condition of the guard frame at that depth (None: constant / try)
     n = 0
     for h in hist:
         a = h["a"]
         if a == "enter":
+            enc = gconds.get(len(kinds)) if kinds and kinds[-1] == "guard" else None
+            if reuse and enc is not None and enc[1] == h["c"]:
+                body = []
+                stack[-1].append({"op": "guarded", "cond": {"r": enc[0]}, "body": body, "same": True})
+                stack.append(body)
+                kinds.append("guard")
+                gconds[len(kinds)] = enc
+                continue
             stack[-1].append({"op": "new", "kind": "priv", "ty": "int", "v": h["c"], "tag": "cond"})
             body = []
             stack[-1].append({"op": "guarded", "cond": {"r": n}, "body": body})
-            n += 1
             stack.append(body)
             kinds.append("guard")
+            gconds[len(kinds)] = (n, h["c"])
+            n += 1
         elif a == "enter_const":
             body = []
             stack[-1].append({"op": "guarded", "cond": {"c": 1}, "body": body, "tag": "constguard"})
             stack.append(body)
             kinds.append("guard")
+            gconds[len(kinds)] = None
         elif a == "setign_in":
             stack[-1].append({"op": "ignore", "v": bool(h["c"]), "tag": "inside"})
             n += 1
@@ -79,6 +92,7 @@ def to_program(pid, hist, style="guarded"):
             stack[-1].append({"op": "try", "body": body})
             stack.append(body)
             kinds.append("try")
+            gconds[len(kinds)] = None
         elif a == "endtry":
             stack.pop()
             kinds.pop()
@@ -249,6 +263,11 @@ def main(tier):
     if tier != "quick":
         hists += gen_histories(run, 14, 6, simulate="num=4000")
     progs = [to_program("h%d" % i, h) for i, h in enumerate(hists)]
+    # the same histories with re-entered guarded objects wherever a region sits directly inside one with the same condition value
+    for i, h in enumerate(hists):
+        q = to_program("h%d/same" % i, h, reuse=True)
+        if json.dumps(q["steps"]) != json.dumps(progs[i]["steps"]):
+            progs.append(q)
     progs += block_api_error_programs(run, tier)
     cfg = {"P": 257, "bitlength": 3, "resolution": 1}
     traces = common.run_programs(cfg, progs)
